@@ -389,9 +389,9 @@ def scenario_bulk(rng, quick, n, mode):
         ops += docs + [{"op": "end_batch"}, {"op": "commit"}]
     elif mode == "batch+lastbig":
         # automatic checkpoints stay on inside the batch, and the LAST put is the one that crosses the 75 % line of the log
-        # (a ~25 KB text: parent + chunk records): the commit closing the batch then finds nothing pending
+        # (a ~32 KB text: parent + chunk records, about 51 KB of the 64 KiB log together with the four documents before it): the commit closing the batch then finds nothing pending
         ops.append({"op": "begin_batch", "skip_sync": rng.random() < 0.5, "no_auto": False, "level": 3, "presize": 0})
-        ops += docs[:4] + [{"op": "put", "uri": "mv2://q/lastbig", "pay": 900, "cls": "long", "size": 25000, "ts": 77}]
+        ops += docs[:4] + [{"op": "put", "uri": "mv2://q/lastbig", "pay": 900, "cls": "long", "size": 32000, "ts": 77}]
         ops += [{"op": "end_batch"}, {"op": "commit"}]
     elif mode == "pending+batch":
         # puts still pending in the log when the batch starts and pre-sizes the log beyond its current size
